@@ -170,13 +170,14 @@ static int blobState(const void * self) // 1 moved-from, 0 intact, -1 unknown (n
 
 template <int N> struct BlobAlign { static const int value = (N % 8 == 0) ? 8 : (N % 4 == 0) ? 4 : (N % 2 == 0) ? 2 : 1; };
 
-template <int N>
+// NX = false: the move constructor is not declared noexcept (a container that moves "if noexcept" would copy such an object)
+template <int N, bool NX = true>
 struct alignas(BlobAlign<N>::value) Blob
 {
 	unsigned char pat[N];
 	explicit Blob(int id) { blobPattern(id, N, pat); blobCtor(this, id, N); }
 	Blob(const Blob & o) { memcpy(pat, o.pat, N); blobFrom(this, &o, N, 1); }
-	Blob(Blob && o) noexcept { memcpy(pat, o.pat, N); blobFrom(this, &o, N, 2); memset(o.pat, 0xDD, N); }
+	Blob(Blob && o) noexcept(NX) { memcpy(pat, o.pat, N); blobFrom(this, &o, N, 2); memset(o.pat, 0xDD, N); }
 	Blob & operator = (const Blob &) = delete;
 	Blob & operator = (Blob &&) = delete;
 	~Blob() { blobDtor(this); }
@@ -184,6 +185,18 @@ struct alignas(BlobAlign<N>::value) Blob
 };
 static_assert(sizeof(Blob<1>) == 1 && sizeof(Blob<16>) == 16 && sizeof(Blob<17>) == 17 && sizeof(Blob<88>) == 88, "sizeof(Blob<N>) must be N");
 static_assert(alignof(Blob<17>) == 1 && alignof(Blob<16>) == 8 && alignof(Blob<12>) == 4 && alignof(Blob<6>) == 2, "Blob alignment");
+
+static_assert(! std::is_nothrow_move_constructible<Blob<8, false> >::value && std::is_nothrow_move_constructible<Blob<8> >::value, "Blob<N,false> must have a throwing move constructor");
+
+// trivially copyable and trivially destructible object of N bytes (nothing to track: like int, but of any size)
+template <int N>
+struct Pod
+{
+	int id;
+	unsigned char pad[N - 4];
+	explicit Pod(int i) : id(i) { for(int k = 0; k < N - 4; ++k) pad[k] = (unsigned char)((i * 13 + k * 5 + 1) & 0xff); }
+};
+static_assert(std::is_trivially_destructible<Pod<8> >::value && std::is_trivially_copyable<Pod<40> >::value && sizeof(Pod<40>) == 40, "Pod<N> must be trivial and N bytes");
 
 typedef Blob<24> Pointee;
 typedef std::unique_ptr<Pointee> UPtr;
@@ -212,15 +225,18 @@ struct SBox
 static_assert(sizeof(UPtr) == 8 && sizeof(SPtr) == 16 && sizeof(UBox<16>) == 16 && sizeof(UBox<72>) == 72 && sizeof(SBox<24>) == 24 && sizeof(SBox<72>) == 72, "box sizes");
 
 // ------------------------------------------------------------------ traits of the stored types
-enum TypeClass { TC_BLOB, TC_INT, TC_STRING, TC_UPTR, TC_SPTR, TC_UBOX, TC_SBOX, TC_KINDS };
-static const char * kClassName[] = { "blob", "int", "string", "unique_ptr", "shared_ptr", "move_only_box", "shared_box" };
+enum TypeClass { TC_BLOB, TC_INT, TC_STRING, TC_UPTR, TC_SPTR, TC_UBOX, TC_SBOX, TC_POD, TC_KINDS };
+static const char * kClassName[] = { "blob", "int", "string", "unique_ptr", "shared_ptr", "move_only_box", "shared_box", "pod" };
 
 template <typename T> struct Tr;
 
-static std::string typeName(int cls, int size)
+template <typename T> struct VariantOf { static const int value = 0; };
+template <int N> struct VariantOf<Blob<N, false> > { static const int value = 1; };
+static std::string typeName(int cls, int size, int variant)
 {
 	switch(cls) {
-	case TC_BLOB: return "Blob<" + num(size) + ">";
+	case TC_BLOB: return "Blob<" + num(size) + (variant ? ",throwing-move>" : ">");
+	case TC_POD: return "Pod<" + num(size) + ">";
 	case TC_INT: return "int";
 	case TC_STRING: return "std::string";
 	case TC_UPTR: return "unique_ptr<Blob<24>>";
@@ -230,13 +246,21 @@ static std::string typeName(int cls, int size)
 	}
 }
 
-template <int N> struct Tr<Blob<N> >
+template <int N, bool NX> struct Tr<Blob<N, NX> >
 {
 	static const int cls = TC_BLOB; static const bool copyable = true;
-	static Blob<N> make(int id) { return Blob<N>(id); }
-	static long long fp(const Blob<N> & v) { return v.observe(); }
-	static int srcState(const Blob<N> & v) { return blobState(&v); }
-	static long shares(const Blob<N> &) { return -1; }
+	static Blob<N, NX> make(int id) { return Blob<N, NX>(id); }
+	static long long fp(const Blob<N, NX> & v) { return v.observe(); }
+	static int srcState(const Blob<N, NX> & v) { return blobState(&v); }
+	static long shares(const Blob<N, NX> &) { return -1; }
+};
+template <int N> struct Tr<Pod<N> >
+{
+	static const int cls = TC_POD; static const bool copyable = true;
+	static Pod<N> make(int id) { return Pod<N>(id); }
+	static long long fp(const Pod<N> & v) { const Pod<N> w(v.id); return memcmp(w.pad, v.pad, N - 4) == 0 ? (long long)v.id : -2000000; }
+	static int srcState(const Pod<N> &) { return -1; }
+	static long shares(const Pod<N> &) { return -1; }
 };
 template <> struct Tr<int>
 {
@@ -306,7 +330,10 @@ template <typename ...Ts> struct TL { static const int size = (int)sizeof...(Ts)
 template <int Cap, std::size_t ...I>
 static TL<Blob<(int)I + 1>..., int, std::string, UPtr, SPtr,
 	UBox<(Cap < 16 ? 16 : Cap)>, UBox<(Cap < 16 ? 16 : Cap) + 8>,
-	SBox<(Cap < 24 ? 24 : Cap)>, SBox<(Cap < 24 ? 24 : Cap) + 8> > makeTypeList(std::index_sequence<I...>);
+	SBox<(Cap < 24 ? 24 : Cap)>, SBox<(Cap < 24 ? 24 : Cap) + 8>,
+	Blob<8, false>, Blob<(Cap < 16 ? 16 : Cap) + 8, false>,                   // copyable, move constructor not noexcept: inline and on the heap
+	Pod<8>, Pod<(Cap < 16 ? 16 : Cap) + 8>, Pod<(Cap < 16 ? 16 : Cap) + 16> > // trivially destructible: inline, and two different ones on the heap
+	makeTypeList(std::index_sequence<I...>);
 
 template <int Cap> struct TypesOf { typedef decltype(makeTypeList<Cap>(std::make_index_sequence<Cap + 24>())) Type; };
 
@@ -342,7 +369,7 @@ struct OpsRow
 {
 	typedef eventpp::AnyData<Cap> AD;
 	std::string name;
-	int size, align, cls;
+	int size, align, cls, variant;
 	bool copyable;
 	void (*feed)(World<Cap> &, int sink, int form, int id, const AD * from);
 	void (*read)(const AD &, ReadBack &);
@@ -406,6 +433,7 @@ struct World
 	}
 	const char * sizeClass(int t) const {
 		if(ops[t].cls != TC_BLOB) return kClassName[ops[t].cls];
+		if(ops[t].variant) return ops[t].size <= EFFCAP ? "blob-with-throwing-move-inline" : "blob-with-throwing-move-on-heap";
 		return ops[t].size < EFFCAP ? "blob-below-capacity" : ops[t].size == EFFCAP ? "blob-at-capacity" : ops[t].size == EFFCAP + 1 ? "blob-capacity-plus-1" : "blob-above-capacity";
 	}
 
@@ -809,7 +837,7 @@ struct World
 		q.reset();
 	}
 
-	int ledgerKind(int t) const { const int c = ops[t].cls; return c == TC_BLOB ? 0 : (c == TC_INT || c == TC_STRING) ? 2 : 1; }
+	int ledgerKind(int t) const { const int c = ops[t].cls; return c == TC_BLOB ? 0 : (c == TC_INT || c == TC_STRING || c == TC_POD) ? 2 : 1; }
 	// ---------- quiescent ledger check: every id is alive exactly as often as the model holds it
 	void quiescent() {
 		if(dead) return;
@@ -1020,7 +1048,7 @@ struct TOps
 
 	static OpsRow<Cap> row() {
 		OpsRow<Cap> r;
-		r.size = (int)sizeof(T); r.align = (int)alignof(T); r.cls = R::cls; r.copyable = R::copyable;
+		r.size = (int)sizeof(T); r.align = (int)alignof(T); r.cls = R::cls; r.copyable = R::copyable; r.variant = VariantOf<T>::value;
 		r.feed = &feed; r.read = &read; r.appendTyped = &appendTyped;
 		return r;
 	}
@@ -1031,7 +1059,7 @@ template <int Cap, typename T> struct RowOf<Cap, T, false>
 {
 	static OpsRow<Cap> get() {
 		OpsRow<Cap> r;
-		r.size = (int)sizeof(T); r.align = (int)alignof(T); r.cls = Tr<T>::cls; r.copyable = Tr<T>::copyable;
+		r.size = (int)sizeof(T); r.align = (int)alignof(T); r.cls = Tr<T>::cls; r.copyable = Tr<T>::copyable; r.variant = VariantOf<T>::value;
 		r.feed = nullptr; r.read = nullptr; r.appendTyped = nullptr; // not a stored type of this binary
 		return r;
 	}
@@ -1044,7 +1072,7 @@ static std::vector<OpsRow<Cap> > makeTable(TL<Ts...>, std::index_sequence<I...>)
 	v.reserve(sizeof...(Ts));
 	const int dummy[] = { (v.push_back(RowOf<Cap, Ts, (I % VF_TYPE_PARTS) == VF_TYPE_PART>::get()), 0)... };
 	(void)dummy;
-	for(size_t i = 0; i < v.size(); ++i) v[i].name = typeName(v[i].cls, v[i].size);
+	for(size_t i = 0; i < v.size(); ++i) v[i].name = typeName(v[i].cls, v[i].size, v[i].variant);
 	return v;
 }
 
